@@ -21,7 +21,7 @@ RULE = (
     "options dict plain / with nested storage_options / absent), cli-create(adjacent | user dir, "
     "rpc), open with create_cache=True while the user cache dir cannot be created (allowed to fail with OSError, not to write elsewhere), open of the same product on memory:// or vtrace:// (uncached, or with index files shipped next to its images; with / without storage_options), delete local cache, delete adjacent cache, tear (truncate) the index files of one location, reload an earlier returned tree}. Quick: a "
     "Hypothesis RuleBasedStateMachine (120 machines x <= 12 steps) plus all histories of length "
-    "<= 2 over a 16-operation alphabet and all 96 'produce a cache, disturb it, open' triples, plus 12 short histories in which a step (an open with / without cache use or creation) is carried out by another process whose preferred text encoding is not UTF-8 (C locale) - caches written there are used here and the other way round; thorough: breadth-first enumeration of ALL histories up "
+    "<= 2 over a 16-operation alphabet and all 96 'produce a cache, disturb it, open' triples, plus 12 short histories in which a step (an open with / without cache use or creation) is carried out by another process whose preferred text encoding is not UTF-8 (C locale) - caches written there are used here and the other way round, plus all pairs (one spelling of the local product path writes the cache, another reads it) over 9 spellings (plain, trailing slash(es), file:// and local:// URLs, relative paths, pathlib.Path); thorough: breadth-first enumeration of ALL histories up "
     "to length 4 over that alphabet (69904 per product) for a level-1.1 ScanSAR-like product (image files differ only in the scan suffix) and a level-1.5 product. "
     "Invariants after every step: the returned tree equals the uncached reference for this "
     "step's rpc; the product directory (listing + sha256) is unchanged except index files made "
@@ -450,7 +450,87 @@ def elsewhere_cases():
             yield {"level": level, "ops": ops}
 
 
+SPELLINGS = ["plain", "slash", "double-slash", "file", "file-slash", "local", "relative", "dot-relative", "pathlib"]
+
+
+def spell(directory, how):
+    d = str(directory)
+    name = pathlib.Path(d).name
+    return {
+        "plain": d, "slash": d + "/", "double-slash": d + "//", "file": "file://" + d, "file-slash": "file://" + d + "/",
+        "local": "local://" + d, "relative": name, "dot-relative": "./" + name, "pathlib": pathlib.Path(d),
+    }[how]
+
+
+def spelling_cases():
+    for level in LEVELS:
+        for a, b in itertools.product(SPELLINGS, repeat=2):
+            yield {"level": level, "spelled": [[a, False, True], [b, True, False]]}
+        for a in SPELLINGS[1:]:
+            yield {"level": level, "spelled": [[a, True, True], [a, True, True], ["plain", True, False], [a, False, False]]}
+
+
+def run_spelled(case):
+    """the same local product named in different ways (trailing slash, file:// / local:// URL,
+    relative path, pathlib.Path): every open returns the reference tree - whatever spelling wrote
+    the cache and whatever spelling reads it; the product directory stays as it is; the user cache
+    dir only ever holds index files and does not change in a step that did not ask for one"""
+    import os
+
+    import ceos_alos2
+
+    files, images = base_files(case["level"])
+    ref, _ = reference(case["level"], "default")
+    out = []
+    cwd = os.getcwd()
+    with harness.Materialised(files, "local") as prod:
+        before_sha = sha_tree(prod.dir)
+        os.chdir(prod.dir.parent)
+        try:
+            for n, (how, use_cache, create) in enumerate(case["spelled"]):
+                what = f"step {n}: open_alos2({how} spelling, use_cache={use_cache}, create_cache={create})"
+                cache_before = sha_tree(harness.cache_home())
+                # relative spellings are resolved from the parent directory, the others from "/"
+                os.chdir(prod.dir.parent if how in ("relative", "dot-relative") else "/")
+                opts = {"use_cache": use_cache, "create_cache": create}
+                keep = copy.deepcopy(opts)
+                tree, err = harness.guard(ceos_alos2.open_alos2, spell(prod.dir, how), backend_options=opts)
+                if opts != keep:
+                    out.append(harness.disc("options-mutated", what, keep, opts))
+                if err is not None:
+                    out.append(harness.disc("exception", what, "a tree", harness.exc_text(err)))
+                else:
+                    flat, ferr = harness.guard(harness.flatten, tree)
+                    if ferr is not None:
+                        out.append(harness.disc("exception", what, "loadable tree", harness.exc_text(ferr)))
+                    else:
+                        out.extend(dict(d, where=f"{what}: {d['where']}") for d in harness.diff_flat(ref, flat, kind="history-differs")[:4])
+                if sha_tree(prod.dir) != before_sha:
+                    out.append(harness.disc("product-dir-modified", what, "files unchanged", sorted(set(sha_tree(prod.dir)) ^ set(before_sha))[:3]))
+                cache_after = sha_tree(harness.cache_home())
+                odd = [k for k in cache_after if not k.endswith(".index")]
+                if odd:
+                    out.append(harness.disc("user-cache-dir", what, "index files only", odd[:3]))
+                if not create and cache_after != cache_before:
+                    out.append(harness.disc("user-cache-rewritten-unasked", what, "user cache dir unchanged (no cache creation was requested)", sorted(set(cache_after.items()) ^ set(cache_before.items()))[:3]))
+                if create and err is None and not any(k.endswith(".index") for k in cache_after):
+                    out.append(harness.disc("user-cache-dir", what, "index files written", "none"))
+                for d in out:
+                    d.setdefault("context", {}).setdefault("step", n)
+                if out:
+                    break
+        finally:
+            os.chdir(cwd)
+            import shutil
+
+            for child in (harness.cache_home().iterdir() if harness.cache_home().exists() else []):
+                shutil.rmtree(child, ignore_errors=True)
+    return out
+
+
 def run_case(case):
+    if "spelled" in case:
+        return run_spelled(case)
     world = World(case["level"])
     out = []
     try:
@@ -561,12 +641,15 @@ def plan(tier):
     q = tier == "quick"
     return [
         {"kind": "enum", "name": "bfs-histories", "cases": lambda: bfs_cases(2 if q else 4), "exhaustive": True},
+        {"kind": "enum", "name": "path-spellings", "cases": spelling_cases, "exhaustive": True},
         {"kind": "enum", "name": "other-environment-steps", "cases": elsewhere_cases, "exhaustive": False},
         {"kind": "machine", "name": "stateful-machine", "machine": make_machine, "examples": 120 if q else 3000, "steps": 12},
     ]
 
 
 def classify(case):
+    if "spelled" in case:
+        return True, [f"level={case['level']}", "spelled"] + sorted({f"spelling={s[0]}" for s in case["spelled"]})
     producing = False
     nontrivial = False
     labels = {f"len={min(len(case['ops']), 6)}{'+' if len(case['ops']) > 6 else ''}", f"level={case['level']}"}
